@@ -32,6 +32,19 @@ check('C20', 'uuid',
       'keeps the code paths. Real-size domain is sampled (2^128 values), not exhaustive.',
       'DESIGN.md section 4, C20')
 
+ENGINES['cli'] = ('specs/cli', ['C19'], 'ArgGraph.tla (declaration-list builder, registration-loop I-spec, Accepts A-spec), '
+                  'ArgGraphAsCoded.tla (refuted original loop); driver harness/drivers/c19.py')
+check('C19', 'cli',
+      'TLA+ spec of the parser graph (TLC: registered dependents = descendants, options held = Accepts) with every '
+      'TLC-enumerated declaration list replayed on the real ArgParser and every (command, option) pair parsed',
+      'TLC enumerates every declaration list with parents among earlier commands (all DAGs incl. diamonds and internal '
+      'option sets) up to 4 (quick) / 5 (thorough) parsers, proves the I-spec registration loop equal to the '
+      'ancestor-closure A-spec in every reachable state, and each emitted graph is replayed on the real ArgParser: '
+      'construction, one option per parser, all (command, option) pairs, common options, default-command argvs.',
+      'Trusted: TLC, argparse. One distinct option per parser; default command = first real command with a free '
+      'positional.  Known finding F-C19b is reported as KNOWN-FINDING.',
+      'DESIGN.md section 4, C19')
+
 ALL = ['C%02d' % i for i in range(1, 21)]
 
 
